@@ -688,6 +688,15 @@ int vnadata_convert(const vnadata_t *vdp_in, vnadata_t *vdp_out,
 	vdp_out->vd_rows = 1;
 
 	/*
+	 * A 1 x n vector has at least one port: make sure the z0
+	 * allocation covers it (matters when n is zero).
+	 */
+	if (_vnadata_extend_p(vdip_in, MAX(vdp_out->vd_rows,
+			vdp_out->vd_columns)) == -1) {
+	    return -1;
+	}
+
+	/*
 	 * Zero the vacated cells to maintain the invariant that cells
 	 * beyond the current dimensions hold initial values.
 	 */
